@@ -358,3 +358,11 @@ rem_facts = Lemma('rem_facts', ['x', 'n'], ne(n, 0), And(urem(x_, n) < n, urem(x
                   proof=r'''  have hn0 : 0 < n := Nat.pos_of_ne_zero hyp
   exact ⟨Nat.mod_lt _ hn0, Nat.mod_le _ _, fun h => Nat.mod_eq_of_lt h⟩''', doc='x mod n < n, <= x, and = x when x < n')
 JACOBI.append(rem_facts)
+g_div = Lemma('g_div', ['a', 'b'], ne(a, 0),
+              And(K(1) <= App('gcd', a, b), App('gcd', a, b) <= a, eq(urem(a, App('gcd', a, b)), 0), eq(urem(a, a), 0)),
+              proof=r'''  have ha0 : 0 < a := Nat.pos_of_ne_zero hyp
+  rw [spec_gcd_eq _ _ hW_a hW_b]
+  refine ⟨Nat.gcd_pos_of_pos_left b ha0, Nat.gcd_le_left b ha0, ?_, Nat.mod_self a⟩
+  exact Nat.mod_eq_zero_of_dvd (Nat.gcd_dvd_left a b)''',
+              doc='for a != 0: 1 <= gcd(a,b) <= a and gcd(a,b) divides a; a divides a')
+GCD.append(g_div)
